@@ -904,4 +904,1101 @@ theorem segwit_foreign_rejected_bytes (pk : Bytes → Bool) (net : Net) (addr : 
     · unfold segwitBranch at hsb
       simp [hone, hgt, hpre] at hsb
 
+theorem charsetAt_any (v : Nat) : charsetAt v ≠ 0x31 ∧ charsetAt v < 128 := by
+  rw [charsetAt_mod]
+  have := charsetAt_props (v % 32) (Nat.mod_lt _ (by decide))
+  refine ⟨this.1, ?_⟩
+  have h := this.2.2.1
+  exact Nat.lt_of_le_of_lt (UInt8.le_iff_toNat_le.mp h) (by decide)
+
+/-- shape of a bech32 string: separator position and prefix, for arbitrary data symbols -/
+theorem bech32Encode_sep' (h : Bytes) (data : List Nat) (ver : B32Version) (hlow : lowerBytes h = h) :
+    lastIdx 0x31 (bech32Encode h data ver) = some h.length ∧
+    (bech32Encode h data ver).take (h.length + 1) = h ++ [0x31] ∧
+    (bech32Encode h data ver).take h.length = h := by
+  unfold bech32Encode
+  simp only [hlow, List.append_assoc, List.singleton_append]
+  refine ⟨?_, ?_, ?_⟩
+  · apply lastIdx_sep
+    intro hc
+    simp only [List.mem_map] at hc
+    obtain ⟨v, _, hv2⟩ := hc
+    exact (charsetAt_any v).1 hv2
+  · rw [List.take_append, List.take_of_length_le (Nat.le_succ _)]
+    simp
+  · simp
+
+theorem bech32Encode_ascii (h : Bytes) (data : List Nat) (ver : B32Version) (hg : GoodHrp h) :
+    ∀ b ∈ bech32Encode h data ver, b < 128 := by
+  unfold bech32Encode
+  rw [goodHrp_lower hg]
+  intro b hb
+  simp only [List.mem_append, List.mem_cons, List.mem_map, List.not_mem_nil, or_false] at hb
+  rcases hb with (hb | rfl) | ⟨v, _, rfl⟩
+  · have := (hg.2.2 b hb).2.1
+    exact Nat.lt_of_le_of_lt (UInt8.le_iff_toNat_le.mp this) (by decide)
+  · decide
+  · exact (charsetAt_any v).2
+
+theorem utf8_encodeSegwit (net : Net) (ver : Nat) (prog : Bytes) :
+    utf8 (encodeSegwit net.hrpStr ver prog) = encodeSegwitBytes net.hrp ver prog := by
+  unfold encodeSegwit
+  rw [utf8_hrpStr]
+  exact utf8_bytesToString _ (bech32Encode_ascii _ _ _ (net_hrp_good net))
+
+/-! ## 2a. Round trips, segwit -/
+
+/-- P2WPKH: `hrp1q…` of a 20-byte program decodes to `00 14 prog`. -/
+theorem roundtrip_p2wpkh (net : Net) (prog : Bytes) (h : prog.length = 20) :
+    decodeBtcAddress net (encodeSegwit net.hrpStr 0 prog) = some ([0x00, 0x14] ++ prog) := by
+  unfold decodeBtcAddress decodeBtcAddressWith
+  rw [utf8_encodeSegwit, segwit_roundtrip_bytes _ net 0 prog (Or.inl rfl) (Or.inl h)]
+  simp [h]
+
+/-- P2WSH: `hrp1q…` of a 32-byte program decodes to `00 20 prog`. -/
+theorem roundtrip_p2wsh (net : Net) (prog : Bytes) (h : prog.length = 32) :
+    decodeBtcAddress net (encodeSegwit net.hrpStr 0 prog) = some ([0x00, 0x20] ++ prog) := by
+  unfold decodeBtcAddress decodeBtcAddressWith
+  rw [utf8_encodeSegwit, segwit_roundtrip_bytes _ net 0 prog (Or.inl rfl) (Or.inr h)]
+  simp [h]
+
+/-- P2TR: `hrp1p…` (bech32m) of a 32-byte program decodes to `51 20 prog`. -/
+theorem roundtrip_p2tr (net : Net) (prog : Bytes) (h : prog.length = 32) :
+    decodeBtcAddress net (encodeSegwit net.hrpStr 1 prog) = some ([0x51, 0x20] ++ prog) := by
+  unfold decodeBtcAddress decodeBtcAddressWith
+  rw [utf8_encodeSegwit, segwit_roundtrip_bytes _ net 1 prog (Or.inr rfl) (Or.inr h)]
+  simp [h]
+
+/-- **Quirk (a genuine deviation from "decoded to exactly the script they encode")**: a witness
+    version 1 address with a 20-byte program (valid bech32m; it denotes the output `51 14 prog`) is
+    ACCEPTED and decoded to the version-0 script `00 14 prog`: btcutil.DecodeAddress dispatches on the
+    program length only and builds an AddressWitnessPubKeyHash, whose version is hard-wired to 0. -/
+theorem v1_20byte_decodes_to_v0_script (net : Net) (prog : Bytes) (h : prog.length = 20) :
+    decodeBtcAddress net (encodeSegwit net.hrpStr 1 prog) = some ([0x00, 0x14] ++ prog) := by
+  unfold decodeBtcAddress decodeBtcAddressWith
+  rw [utf8_encodeSegwit, segwit_roundtrip_bytes _ net 1 prog (Or.inr rfl) (Or.inl h)]
+  simp [h]
+
+/-! ## 3a. Foreign networks, segwit -/
+
+/-- A well-formed segwit string for a registered human-readable part other than the one of `net`
+    is rejected — for every witness version and program (byte level). -/
+theorem foreign_segwit_rejected_bytes (pk : Bytes → Bool) (net : Net) (h : Bytes) (hg : GoodHrp h)
+    (h2 : 1 < h.length) (hreg : isBech32SegwitPrefix (h ++ [0x31]) = true) (hne : h ≠ net.hrp)
+    (ver : Nat) (prog : Bytes) : decodeBytes pk net (encodeSegwitBytes h ver prog) = none := by
+  unfold encodeSegwitBytes
+  obtain ⟨e1, e2, e3⟩ := bech32Encode_sep' h (ver :: convert8to5 prog) (if ver = 0 then .v0 else .vM)
+    (goodHrp_lower hg)
+  apply segwit_foreign_rejected_bytes pk net _ h.length e1 h2
+  · rw [e2]; exact hreg
+  · rw [e3, goodHrp_lower hg]; exact hne
+
+/-- **foreign_network_rejected (segwit)**: an address carrying the human-readable part of another
+    of the four networks is rejected unless that network has the same human-readable part
+    (testnet3 and signet share "tb", so their addresses are interchangeable). -/
+theorem foreign_network_rejected_segwit (net net' : Net) (hne : net'.hrp ≠ net.hrp) (ver : Nat)
+    (prog : Bytes) : decodeBtcAddress net (encodeSegwit net'.hrpStr ver prog) = none := by
+  unfold decodeBtcAddress decodeBtcAddressWith
+  rw [utf8_encodeSegwit]
+  exact foreign_segwit_rejected_bytes _ net net'.hrp (net_hrp_good net') (net_hrp_len net')
+    (net_prefix_registered net') hne ver prog
+
+/-- simnet ("sb") is registered in chaincfg, so its addresses enter the segwit branch and are
+    rejected by every GOAT network. -/
+theorem simnet_segwit_rejected (pk : Bytes → Bool) (net : Net) (ver : Nat) (prog : Bytes) :
+    decodeBytes pk net (encodeSegwitBytes [0x73, 0x62] ver prog) = none := by
+  apply foreign_segwit_rejected_bytes
+  · unfold GoodHrp; decide
+  · decide
+  · decide
+  · cases net <;> decide
+
+/-! ## Positional notation (the bignum argument behind base58) -/
+
+/-- little-endian digits, no trailing zero digit; `fuel ≥ x` suffices -/
+def digitsLE (base : Nat) : Nat → Nat → List Nat
+  | 0, _ => []
+  | fuel + 1, x => if x = 0 then [] else (x % base) :: digitsLE base fuel (x / base)
+
+def ofDigitsLE (base : Nat) : List Nat → Nat
+  | [] => 0
+  | d :: ds => d + base * ofDigitsLE base ds
+
+theorem div_le_fuel {base fuel x : Nat} (hb : 2 ≤ base) (hx : x ≤ fuel + 1) (h0 : x ≠ 0) :
+    x / base ≤ fuel := by
+  have : x / base < x := Nat.div_lt_self (by omega) (by omega)
+  omega
+
+theorem ofDigitsLE_digitsLE (base : Nat) (hb : 2 ≤ base) : ∀ fuel x, x ≤ fuel →
+    ofDigitsLE base (digitsLE base fuel x) = x := by
+  intro fuel
+  induction fuel with
+  | zero => intro x hx; have : x = 0 := by omega
+            subst this; rfl
+  | succ fuel ih =>
+    intro x hx
+    unfold digitsLE
+    by_cases h0 : x = 0
+    · simp [h0, ofDigitsLE]
+    · simp only [h0, if_false, ofDigitsLE, ih _ (div_le_fuel hb hx h0)]
+      exact Nat.mod_add_div x base
+
+theorem digitsLE_lt (base : Nat) (hb : 2 ≤ base) : ∀ fuel x, ∀ d ∈ digitsLE base fuel x, d < base := by
+  intro fuel
+  induction fuel with
+  | zero => intro x d hd; simp [digitsLE] at hd
+  | succ fuel ih =>
+    intro x d hd
+    unfold digitsLE at hd
+    split at hd
+    · cases hd
+    · simp only [List.mem_cons] at hd
+      rcases hd with rfl | hd
+      · exact Nat.mod_lt _ (by omega)
+      · exact ih _ d hd
+
+/-- the most significant digit is not zero -/
+theorem digitsLE_getLast (base : Nat) (hb : 2 ≤ base) : ∀ fuel x, x ≤ fuel →
+    (digitsLE base fuel x).getLast? ≠ some 0 := by
+  intro fuel
+  induction fuel with
+  | zero => intro x _; simp [digitsLE]
+  | succ fuel ih =>
+    intro x hx
+    unfold digitsLE
+    by_cases h0 : x = 0
+    · simp [h0]
+    · simp only [h0, if_false]
+      have ih' := ih (x / base) (div_le_fuel hb hx h0)
+      cases hq : digitsLE base fuel (x / base) with
+      | nil =>
+        simp only [List.getLast?_singleton, ne_eq, Option.some.injEq]
+        -- x / base = 0 (its digit list is empty), so x % base = x ≠ 0
+        have hq0 : x / base = 0 := by
+          have := ofDigitsLE_digitsLE base hb fuel (x / base) (div_le_fuel hb hx h0)
+          rw [hq] at this
+          exact this.symm
+        have := Nat.mod_add_div x base
+        rw [hq0] at this
+        omega
+      | cons d ds =>
+        rw [hq] at ih'
+        rw [List.getLast?_cons_cons]
+        exact ih'
+
+/-- uniqueness of the representation -/
+theorem digitsLE_ofDigitsLE (base : Nat) (hb : 2 ≤ base) : ∀ (ds : List Nat) (fuel : Nat),
+    (∀ d ∈ ds, d < base) → ds.getLast? ≠ some 0 → ofDigitsLE base ds ≤ fuel →
+    digitsLE base fuel (ofDigitsLE base ds) = ds := by
+  intro ds
+  induction ds with
+  | nil => intro fuel _ _ _; cases fuel <;> simp [digitsLE, ofDigitsLE]
+  | cons d ds ih =>
+    intro fuel hlt hlast hf
+    have hd : d < base := hlt d (by simp)
+    have hne : ofDigitsLE base (d :: ds) ≠ 0 := by
+      simp only [ofDigitsLE]
+      cases ds with
+      | nil =>
+        simp only [List.getLast?_singleton, ne_eq, Option.some.injEq] at hlast
+        simp [ofDigitsLE]; exact hlast
+      | cons e es =>
+        intro h
+        have h2 : base * ofDigitsLE base (e :: es) = 0 := by omega
+        have h3 : ofDigitsLE base (e :: es) = 0 := by
+          rcases Nat.mul_eq_zero.mp h2 with h | h
+          · omega
+          · exact h
+        rw [List.getLast?_cons_cons] at hlast
+        have := ih 0 (fun x hx => hlt x (by simp [hx])) hlast (by omega)
+        rw [h3] at this
+        simp [digitsLE] at this
+    cases fuel with
+    | zero => omega
+    | succ fuel =>
+      unfold digitsLE
+      simp only [hne, if_false]
+      have hm : ofDigitsLE base (d :: ds) % base = d := by
+        simp only [ofDigitsLE]
+        rw [Nat.add_mul_mod_self_left]
+        exact Nat.mod_eq_of_lt hd
+      have hq : ofDigitsLE base (d :: ds) / base = ofDigitsLE base ds := by
+        simp only [ofDigitsLE]
+        rw [Nat.add_mul_div_left _ _ (by omega : 0 < base), Nat.div_eq_of_lt hd, Nat.zero_add]
+      rw [hm, hq]
+      congr 1
+      apply ih fuel (fun x hx => hlt x (by simp [hx]))
+      · cases ds with
+        | nil => simp
+        | cons e es => rw [List.getLast?_cons_cons] at hlast; exact hlast
+      · have := div_le_fuel hb hf hne
+        rw [hq] at this
+        exact this
+
+theorem digits58LE_eq (fuel x : Nat) : digits58LE fuel x = digitsLE 58 fuel x := by
+  induction fuel generalizing x with
+  | zero => rfl
+  | succ fuel ih => simp only [digits58LE, digitsLE, ih]
+
+theorem natBytesLE_eq (fuel x : Nat) : natBytesLE fuel x = (digitsLE 256 fuel x).map UInt8.ofNat := by
+  induction fuel generalizing x with
+  | zero => rfl
+  | succ fuel ih =>
+    simp only [natBytesLE, digitsLE, ih]
+    split <;> simp
+
+theorem ofDigits_snoc (base : Nat) (ds : List Nat) (d : Nat) :
+    ofDigits base (ds ++ [d]) = ofDigits base ds * base + d := by
+  simp [ofDigits, List.foldl_append]
+
+theorem ofDigitsLE_eq (base : Nat) (ds : List Nat) : ofDigitsLE base ds = ofDigits base ds.reverse := by
+  induction ds with
+  | nil => rfl
+  | cons d ds ih =>
+    rw [List.reverse_cons, ofDigits_snoc, ← ih, ofDigitsLE]
+    rw [Nat.mul_comm, Nat.add_comm]
+
+theorem ofDigits_eq (base : Nat) (ds : List Nat) : ofDigits base ds = ofDigitsLE base ds.reverse := by
+  rw [ofDigitsLE_eq, List.reverse_reverse]
+
+theorem beToNat_eq (bs : Bytes) : beToNat bs = ofDigits 256 (bs.map UInt8.toNat) := by
+  simp [beToNat, ofDigits, List.foldl_map]
+
+theorem ofDigits_zeros (base k : Nat) (ds : List Nat) :
+    ofDigits base (List.replicate k 0 ++ ds) = ofDigits base ds := by
+  induction k with
+  | zero => simp
+  | succ k ih =>
+    rw [List.replicate_succ, List.cons_append]
+    unfold ofDigits at ih ⊢
+    simpa [List.foldl_cons] using ih
+
+theorem alphabetAt_props : ∀ d, d < 58 → b58Idx (alphabetAt d) = some d ∧
+    (alphabetAt d = 0x31 ↔ d = 0) ∧ alphabetAt d < 128 := by decide +kernel
+
+theorem b58Digits_map (l : List Nat) (h : ∀ d ∈ l, d < 58) : b58Digits (l.map alphabetAt) = some l := by
+  induction l with
+  | nil => rfl
+  | cons d tl ih =>
+    have hd := (alphabetAt_props d (h d (by simp))).1
+    simp only [List.map_cons, b58Digits, hd, ih (fun w hw => h w (by simp [hw]))]
+
+theorem countLeading_replicate (c : UInt8) (k : Nat) (rest : Bytes) (h : rest.head? ≠ some c) :
+    countLeading c (List.replicate k c ++ rest) = k := by
+  induction k with
+  | zero =>
+    cases rest with
+    | nil => rfl
+    | cons b tl =>
+      simp only [List.head?_cons, ne_eq, Option.some.injEq] at h
+      simp [countLeading, h]
+  | succ k ih => simp [List.replicate_succ, countLeading, ih]
+
+/-- a byte string is its leading zero bytes followed by the rest, which does not start with zero -/
+theorem split_leading (c : UInt8) (b : Bytes) :
+    b = List.replicate (countLeading c b) c ++ b.drop (countLeading c b) ∧
+    (b.drop (countLeading c b)).head? ≠ some c := by
+  induction b with
+  | nil => simp [countLeading]
+  | cons x tl ih =>
+    unfold countLeading
+    by_cases hx : x = c
+    · subst hx
+      simp only [if_true, List.replicate_succ, List.drop_succ_cons, List.cons_append]
+      exact ⟨by rw [← ih.1], ih.2⟩
+    · simp [hx]
+
+/-- **base58.Decode ∘ base58.Encode = id** on byte strings of every length. -/
+theorem base58Decode_encode (b : Bytes) : base58Decode (base58Encode b) = b := by
+  obtain ⟨hsplit, hhead⟩ := split_leading 0 b
+  generalize hk : countLeading 0 b = k at hsplit hhead
+  generalize hb' : b.drop k = b' at hsplit hhead
+  -- the number
+  have hx : beToNat b = ofDigitsLE 256 (b'.reverse.map UInt8.toNat) := by
+    rw [beToNat_eq, hsplit, List.map_append, List.map_replicate]
+    show ofDigits 256 (List.replicate k 0 ++ _) = _
+    rw [ofDigits_zeros, ofDigits_eq, List.map_reverse]
+  generalize hxx : beToNat b = x at hx
+  -- the base-58 digits
+  have hD := digits58LE_eq x x
+  generalize hDD : digitsLE 58 x x = D at hD
+  have hDlt : ∀ d ∈ D, d < 58 := by rw [← hDD]; exact digitsLE_lt 58 (by decide) x x
+  have hDlast : D.getLast? ≠ some 0 := by rw [← hDD]; exact digitsLE_getLast 58 (by decide) x x (Nat.le_refl _)
+  have hDval : ofDigitsLE 58 D = x := by rw [← hDD]; exact ofDigitsLE_digitsLE 58 (by decide) x x (Nat.le_refl _)
+  have hs : base58Encode b = (List.replicate k 0 ++ D.reverse).map alphabetAt := by
+    unfold base58Encode
+    simp only [hxx, hk, hD, List.map_append, List.map_replicate]
+    rfl
+  have hdig : b58Digits (base58Encode b) = some (List.replicate k 0 ++ D.reverse) := by
+    rw [hs]
+    apply b58Digits_map
+    intro d hd
+    simp only [List.mem_append, List.mem_replicate, List.mem_reverse] at hd
+    rcases hd with ⟨_, rfl⟩ | hd
+    · decide
+    · exact hDlt d hd
+  have hcount : countLeading 0x31 (base58Encode b) = k := by
+    rw [hs, List.map_append, List.map_replicate]
+    show countLeading 0x31 (List.replicate k 0x31 ++ _) = k
+    apply countLeading_replicate
+    cases hr : D.reverse with
+    | nil => simp
+    | cons t ts =>
+      simp only [List.map_cons, List.head?_cons, ne_eq, Option.some.injEq]
+      have ht : t ∈ D := by rw [← List.mem_reverse, hr]; simp
+      have ht0 : t ≠ 0 := by
+        intro h0
+        apply hDlast
+        rw [← List.head?_reverse, hr, h0]
+        rfl
+      intro h
+      exact ht0 ((alphabetAt_props t (hDlt t ht)).2.1.mp h)
+  unfold base58Decode
+  rw [hdig]
+  simp only [hcount, ofDigits_zeros]
+  rw [ofDigits_eq, List.reverse_reverse, hDval]
+  -- the bytes of x
+  unfold natBytesBE
+  rw [natBytesLE_eq, hx]
+  rw [digitsLE_ofDigitsLE 256 (by decide)]
+  · have e : (List.map UInt8.ofNat (List.map UInt8.toNat b'.reverse)).reverse = b' := by
+      rw [← List.map_reverse, ← List.map_reverse, List.reverse_reverse, List.map_map]
+      rw [List.map_congr_left (g := id)]
+      · simp
+      · intro a _; simp
+    rw [e, ← hsplit]
+  · intro d hd
+    simp only [List.mem_map, List.mem_reverse] at hd
+    obtain ⟨a, _, rfl⟩ := hd
+    exact a.toNat_lt
+  · rw [List.getLast?_map, List.getLast?_reverse]
+    cases b' with
+    | nil => simp
+    | cons a tl =>
+      simp only [List.head?_cons, ne_eq, Option.some.injEq] at hhead
+      simp only [List.head?_cons, Option.map_some, ne_eq, Option.some.injEq]
+      intro h0
+      apply hhead
+      exact UInt8.toNat_inj.mp (by simpa using h0)
+  · exact Nat.le_refl _
+
+theorem checksum4_length (bs : Bytes) : (checksum4 bs).length = 4 := by
+  simp [checksum4, List.length_take]
+
+/-- base58.CheckDecode ∘ base58.CheckEncode -/
+theorem checkDecode_encode (v : UInt8) (payload : Bytes) :
+    checkDecode (encodeBase58CheckBytes v payload) = some (payload, v) := by
+  unfold checkDecode encodeBase58CheckBytes
+  simp only [base58Decode_encode]
+  have h4 := checksum4_length (v :: payload)
+  generalize hck : checksum4 (v :: payload) = ck at h4
+  have e1 : ¬ (v :: payload ++ ck).length < 5 := by simp [h4]
+  have e3 : (v :: payload ++ ck).length - 4 = (v :: payload).length := by simp [h4]
+  have e4 : (v :: payload ++ ck).take (v :: payload).length = v :: payload := List.take_left'  rfl
+  have e5 : (v :: payload ++ ck).drop (v :: payload).length = ck := List.drop_left' rfl
+  rw [if_neg e1, e3, e4, e5]
+  simp [hck]
+
+theorem digitsLE_length_le (base : Nat) (hb : 2 ≤ base) : ∀ (n fuel x : Nat), x < base ^ n →
+    (digitsLE base fuel x).length ≤ n := by
+  intro n
+  induction n with
+  | zero =>
+    intro fuel x hx
+    have : x = 0 := by simpa using hx
+    subst this
+    cases fuel <;> simp [digitsLE]
+  | succ n ih =>
+    intro fuel x hx
+    cases fuel with
+    | zero => simp [digitsLE]
+    | succ fuel =>
+      unfold digitsLE
+      split
+      · simp
+      · simp only [List.length_cons]
+        have : x / base < base ^ n := by
+          rw [Nat.div_lt_iff_lt_mul (by omega)]
+          rwa [Nat.pow_succ] at hx
+        have := ih fuel (x / base) this
+        omega
+
+theorem beFold_acc (l : Bytes) : ∀ acc : Nat,
+    l.foldl (fun acc b => acc * 256 + b.toNat) acc = acc * 256 ^ l.length + beToNat l := by
+  induction l with
+  | nil => intro acc; simp [beToNat]
+  | cons b tl ih =>
+    intro acc
+    simp only [List.foldl_cons, List.length_cons, beToNat]
+    rw [ih, ih (0 * 256 + b.toNat), Nat.pow_succ]
+    simp only [Nat.zero_mul, Nat.zero_add, Nat.add_mul, Nat.mul_assoc, Nat.add_assoc]
+    congr 2
+    rw [Nat.mul_comm]
+
+theorem beToNat_lt (l : Bytes) : beToNat l < 256 ^ l.length := by
+  induction l with
+  | nil => simp [beToNat]
+  | cons b tl ih =>
+    have h := beFold_acc tl (0 * 256 + b.toNat)
+    have hb := b.toNat_lt
+    simp only [beToNat, List.foldl_cons, List.length_cons] at h ih ⊢
+    rw [h, Nat.pow_succ]
+    calc (0 * 256 + b.toNat) * 256 ^ tl.length + List.foldl (fun acc b => acc * 256 + b.toNat) 0 tl
+        < (0 * 256 + b.toNat) * 256 ^ tl.length + 256 ^ tl.length := by omega
+      _ = (b.toNat + 1) * 256 ^ tl.length := by simp [Nat.add_mul]
+      _ ≤ 256 * 256 ^ tl.length := Nat.mul_le_mul_right _ (by omega)
+      _ = 256 ^ tl.length * 256 := Nat.mul_comm _ _
+
+theorem beToNat_cons (a : UInt8) (rest : Bytes) :
+    beToNat (a :: rest) = a.toNat * 256 ^ rest.length + beToNat rest := by
+  have h := beFold_acc rest (0 * 256 + a.toNat)
+  simp only [beToNat, List.foldl_cons] at h ⊢
+  rw [h]
+  simp
+
+theorem digitsLE_zero (base fuel : Nat) : digitsLE base fuel 0 = [] := by
+  cases fuel <;> simp [digitsLE]
+
+/-- the most significant digit `t` and the number of digits below it bracket the number -/
+theorem digitsLE_top (base : Nat) (hb : 2 ≤ base) : ∀ fuel x, x ≤ fuel → x ≠ 0 →
+    ∃ t ds, digitsLE base fuel x = ds ++ [t] ∧ 1 ≤ t ∧ t < base ∧
+      t * base ^ ds.length ≤ x ∧ x < (t + 1) * base ^ ds.length := by
+  intro fuel
+  induction fuel with
+  | zero => intro x hx h0; omega
+  | succ fuel ih =>
+    intro x hx h0
+    unfold digitsLE
+    simp only [h0, if_false]
+    have hdm := Nat.div_add_mod x base
+    have hr : x % base < base := Nat.mod_lt _ (by omega)
+    by_cases hq : x / base = 0
+    · rw [hq, digitsLE_zero]
+      refine ⟨x % base, [], rfl, ?_, hr, ?_, ?_⟩
+      · rw [hq] at hdm; omega
+      · rw [hq] at hdm; simp; omega
+      · rw [hq] at hdm; simp; omega
+    · obtain ⟨t, ds, hds, ht1, ht2, hlo, hhi⟩ := ih (x / base) (div_le_fuel hb hx h0) hq
+      refine ⟨t, (x % base) :: ds, by rw [hds]; rfl, ht1, ht2, ?_, ?_⟩
+      · simp only [List.length_cons, Nat.pow_succ]
+        have := Nat.mul_le_mul_right base hlo
+        rw [Nat.mul_assoc] at this
+        have e : x / base * base = base * (x / base) := Nat.mul_comm _ _
+        omega
+      · simp only [List.length_cons, Nat.pow_succ]
+        have h1 : x / base + 1 ≤ (t + 1) * base ^ ds.length := hhi
+        have := Nat.mul_le_mul_right base h1
+        rw [Nat.mul_assoc, Nat.add_mul] at this
+        have e : x / base * base = base * (x / base) := Nat.mul_comm _ _
+        omega
+
+theorem top_range {x lo hi e tlo thi t n : Nat} (hlo : lo ≤ x) (hhi : x < hi)
+    (h1 : 58 ^ e ≤ lo) (h2 : hi ≤ 58 ^ (e + 1)) (h3 : tlo * 58 ^ e ≤ lo) (h4 : hi ≤ (thi + 1) * 58 ^ e)
+    (ht1 : 1 ≤ t) (ht2 : t < 58) (ht3 : t * 58 ^ n ≤ x) (ht4 : x < (t + 1) * 58 ^ n) :
+    tlo ≤ t ∧ t ≤ thi := by
+  have hn : n = e := by
+    rcases Nat.lt_trichotomy n e with h | h | h
+    · exfalso
+      have a1 : (t + 1) * 58 ^ n ≤ 58 * 58 ^ n := Nat.mul_le_mul_right _ (by omega)
+      have a2 : 58 * 58 ^ n = 58 ^ (n + 1) := by rw [Nat.pow_succ, Nat.mul_comm]
+      have a3 : 58 ^ (n + 1) ≤ 58 ^ e := Nat.pow_le_pow_right (by decide) h
+      omega
+    · exact h
+    · exfalso
+      have a1 : 58 ^ (e + 1) ≤ 58 ^ n := Nat.pow_le_pow_right (by decide) h
+      have a2 : 1 * 58 ^ n ≤ t * 58 ^ n := Nat.mul_le_mul_right _ ht1
+      omega
+  subst hn
+  constructor
+  · have : tlo * 58 ^ n < (t + 1) * 58 ^ n := by omega
+    have := Nat.lt_of_mul_lt_mul_right this
+    omega
+  · have : t * 58 ^ n < (thi + 1) * 58 ^ n := by omega
+    have := Nat.lt_of_mul_lt_mul_right this
+    omega
+
+/-- the segwit branch is not taken by a string whose first byte is not b/B, t/T or s/S -/
+theorem segwitBranch_none_of_head (s : Bytes) (c : UInt8) (hh : s.head? = some c)
+    (hc : asciiLower c ≠ 0x62 ∧ asciiLower c ≠ 0x74 ∧ asciiLower c ≠ 0x73) : segwitBranch s = none := by
+  unfold segwitBranch
+  cases hone : lastIdx 0x31 s with
+  | none => rfl
+  | some one =>
+    simp only
+    by_cases hgt : one > 1
+    · simp only [hgt, if_true]
+      cases s with
+      | nil => simp at hh
+      | cons x tl =>
+        simp only [List.head?_cons, Option.some.injEq] at hh
+        subst hh
+        have : isBech32SegwitPrefix (List.take (one + 1) (x :: tl)) = false := by
+          simp only [List.take_succ_cons, isBech32SegwitPrefix, registeredPrefixes, lowerBytes, List.map_cons]
+          simp [hc.1, hc.2.1, hc.2.2]
+        rw [this]
+        simp
+    · simp [hgt]
+
+/-- first character of base58.Encode(v :: rest) for v ≠ 0, through the most significant base-58 digit -/
+theorem base58Encode_head (v : UInt8) (rest : Bytes) (hv : v ≠ 0) :
+    ∃ t n, (base58Encode (v :: rest)).head? = some (alphabetAt t) ∧ 1 ≤ t ∧ t < 58 ∧
+      t * 58 ^ n ≤ beToNat (v :: rest) ∧ beToNat (v :: rest) < (t + 1) * 58 ^ n ∧
+      (base58Encode (v :: rest)).length = n + 1 := by
+  have hx0 : beToNat (v :: rest) ≠ 0 := by
+    rw [beToNat_cons]
+    have : v.toNat ≠ 0 := fun h => hv (UInt8.toNat_inj.mp (by simpa using h))
+    have hp : 0 < 256 ^ rest.length := Nat.pow_pos (by decide)
+    have : 1 * 256 ^ rest.length ≤ v.toNat * 256 ^ rest.length := Nat.mul_le_mul_right _ (by omega)
+    omega
+  have hs : base58Encode (v :: rest) =
+      (digitsLE 58 (beToNat (v :: rest)) (beToNat (v :: rest))).reverse.map alphabetAt := by
+    unfold base58Encode
+    simp [countLeading, hv, digits58LE_eq]
+  generalize beToNat (v :: rest) = x at hx0 hs
+  obtain ⟨t, ds, hds, ht1, ht2, hlo, hhi⟩ := digitsLE_top 58 (by decide) x x (Nat.le_refl _) hx0
+  rw [hds] at hs
+  refine ⟨t, ds.length, ?_, ht1, ht2, hlo, hhi, ?_⟩
+  · rw [hs]; simp
+  · rw [hs]; simp
+
+theorem beToNat_zeros (k : Nat) (b : Bytes) : beToNat (List.replicate k 0 ++ b) = beToNat b := by
+  rw [beToNat_eq, beToNat_eq, List.map_append, List.map_replicate]
+  exact ofDigits_zeros 256 k _
+
+/-- a base58 string is at most twice as long as the bytes it encodes -/
+theorem base58Encode_length_le (b : Bytes) : (base58Encode b).length ≤ 2 * b.length := by
+  obtain ⟨hsplit, _⟩ := split_leading 0 b
+  generalize hk : countLeading 0 b = k at hsplit
+  generalize b.drop k = b' at hsplit
+  have hx : beToNat b = beToNat b' := by rw [hsplit, beToNat_zeros]
+  have hlt : beToNat b < 58 ^ (2 * b'.length) := by
+    rw [hx, Nat.pow_mul]
+    exact Nat.lt_of_lt_of_le (beToNat_lt b') (Nat.pow_le_pow_left (by decide) _)
+  have hD := digitsLE_length_le 58 (by decide) _ (beToNat b) _ hlt
+  unfold base58Encode
+  simp only [hk, digits58LE_eq, List.length_append, List.length_replicate, List.length_map,
+    List.length_reverse]
+  have : b.length = k + b'.length := by rw [hsplit]; simp
+  omega
+
+theorem base58Encode_zero_head (rest : Bytes) : (base58Encode (0 :: rest)).head? = some 0x31 := by
+  unfold base58Encode
+  simp [countLeading, List.replicate_succ]
+
+theorem p256_24 : (256 : Nat) ^ 24 = 6277101735386680763835789423207666416102355444464034512896 := by decide
+
+/-- the segwit branch is not taken by the base58check encoding of a 25-byte string whose version
+    byte is one of 0x00, 0x05, 0x6f, 0xc4 (the first character is '1', '3', 'm'/'n', '2'). -/
+theorem base58_not_segwit (v : UInt8) (rest : Bytes) (hr : rest.length = 24)
+    (hv : v = 0x00 ∨ v = 0x05 ∨ v = 0x6f ∨ v = 0xc4) : segwitBranch (base58Encode (v :: rest)) = none := by
+  have hx := beToNat_cons v rest
+  have hlt := beToNat_lt rest
+  rw [hr, p256_24] at hx hlt
+  rcases hv with rfl | rfl | rfl | rfl
+  · exact segwitBranch_none_of_head _ _ (base58Encode_zero_head rest) (by decide)
+  · obtain ⟨t, n, hh, ht1, ht2, hlo, hhi, _⟩ := base58Encode_head 0x05 rest (by decide)
+    have hr := top_range (x := beToNat (0x05 :: rest)) (e := 33) (tlo := 2) (thi := 2)
+      (lo := 5 * 6277101735386680763835789423207666416102355444464034512896)
+      (hi := 6 * 6277101735386680763835789423207666416102355444464034512896)
+      (by rw [hx]; simp) (by rw [hx]; simp; omega) (by decide) (by decide) (by decide) (by decide)
+      ht1 ht2 hlo hhi
+    have : t = 2 := by omega
+    subst this
+    exact segwitBranch_none_of_head _ _ hh (by decide)
+  · obtain ⟨t, n, hh, ht1, ht2, hlo, hhi, _⟩ := base58Encode_head 0x6f rest (by decide)
+    have hr := top_range (x := beToNat (0x6f :: rest)) (e := 33) (tlo := 44) (thi := 45)
+      (lo := 111 * 6277101735386680763835789423207666416102355444464034512896)
+      (hi := 112 * 6277101735386680763835789423207666416102355444464034512896)
+      (by rw [hx]; simp) (by rw [hx]; simp; omega) (by decide) (by decide) (by decide) (by decide)
+      ht1 ht2 hlo hhi
+    have : t = 44 ∨ t = 45 := by omega
+    rcases this with rfl | rfl <;> exact segwitBranch_none_of_head _ _ hh (by decide)
+  · obtain ⟨t, n, hh, ht1, ht2, hlo, hhi, _⟩ := base58Encode_head 0xc4 rest (by decide)
+    have hr := top_range (x := beToNat (0xc4 :: rest)) (e := 34) (tlo := 1) (thi := 1)
+      (lo := 196 * 6277101735386680763835789423207666416102355444464034512896)
+      (hi := 197 * 6277101735386680763835789423207666416102355444464034512896)
+      (by rw [hx]; simp) (by rw [hx]; simp; omega) (by decide) (by decide) (by decide) (by decide)
+      ht1 ht2 hlo hhi
+    have : t = 1 := by omega
+    subst this
+    exact segwitBranch_none_of_head _ _ hh (by decide)
+
+theorem net_ids (net : Net) : (net.p2pkhId = 0x00 ∨ net.p2pkhId = 0x05 ∨ net.p2pkhId = 0x6f ∨ net.p2pkhId = 0xc4) ∧
+    (net.p2shId = 0x00 ∨ net.p2shId = 0x05 ∨ net.p2shId = 0x6f ∨ net.p2shId = 0xc4) := by
+  cases net <;> decide
+
+/-- the whole function on a base58check address of the network, byte level -/
+theorem base58_roundtrip_bytes (pk : Bytes → Bool) (net : Net) (v : UInt8) (payload : Bytes)
+    (hl : payload.length = 20) (hv : v = net.p2pkhId ∨ v = net.p2shId) :
+    decodeBytes pk net (encodeBase58CheckBytes v payload) =
+      some (if v = net.p2pkhId then [0x76, 0xa9, 0x14] ++ payload ++ [0x88, 0xac]
+            else [0xa9, 0x14] ++ payload ++ [0x87]) := by
+  have hcd := checkDecode_encode v payload
+  have hrest : (payload ++ checksum4 (v :: payload)).length = 24 := by
+    simp [hl, checksum4_length]
+  have hv4 : v = 0x00 ∨ v = 0x05 ∨ v = 0x6f ∨ v = 0xc4 := by
+    rcases hv with rfl | rfl
+    · exact (net_ids net).1
+    · exact (net_ids net).2
+  have hsb : segwitBranch (encodeBase58CheckBytes v payload) = none := by
+    unfold encodeBase58CheckBytes
+    exact base58_not_segwit v _ hrest hv4
+  have hlen : (encodeBase58CheckBytes v payload).length ≤ 50 := by
+    unfold encodeBase58CheckBytes
+    have := base58Encode_length_le (v :: payload ++ checksum4 (v :: payload))
+    simp only [List.cons_append, List.length_cons, hrest] at this
+    simpa using this
+  have hne : ¬ ((encodeBase58CheckBytes v payload).length = 130 ∨
+      (encodeBase58CheckBytes v payload).length = 66) := by omega
+  unfold decodeBytes decodeAddress
+  simp only [hsb, hne, if_false, hcd, hl, if_true]
+  have hids := ids_ne net
+  rcases hv with rfl | rfl
+  · simp [hids, Address.isForNet, payToAddrScript]
+  · simp [hids.symm, Address.isForNet, payToAddrScript]
+
+theorem encodeBase58Check_ascii (v : UInt8) (payload : Bytes) :
+    ∀ b ∈ encodeBase58CheckBytes v payload, b < 128 := by
+  unfold encodeBase58CheckBytes base58Encode
+  intro b hb
+  simp only [List.mem_append, List.mem_replicate, List.mem_map, List.mem_reverse] at hb
+  rcases hb with ⟨_, rfl⟩ | ⟨d, hd, rfl⟩
+  · decide
+  · rw [digits58LE_eq] at hd
+    exact (alphabetAt_props d (digitsLE_lt 58 (by decide) _ _ d hd)).2.2
+
+theorem utf8_encodeBase58Check (v : UInt8) (payload : Bytes) :
+    utf8 (encodeBase58Check v payload) = encodeBase58CheckBytes v payload :=
+  utf8_bytesToString _ (encodeBase58Check_ascii v payload)
+
+/-! ## 2b. Round trips, base58check -/
+
+/-- P2PKH: the base58check string of (PubKeyHashAddrID, 20-byte hash) decodes to `76 a9 14 h 88 ac`. -/
+theorem roundtrip_p2pkh (net : Net) (h : Bytes) (hl : h.length = 20) :
+    decodeBtcAddress net (encodeBase58Check net.p2pkhId h) =
+      some ([0x76, 0xa9, 0x14] ++ h ++ [0x88, 0xac]) := by
+  unfold decodeBtcAddress decodeBtcAddressWith
+  rw [utf8_encodeBase58Check, base58_roundtrip_bytes _ net _ h hl (Or.inl rfl)]
+  simp
+
+/-- P2SH: the base58check string of (ScriptHashAddrID, 20-byte hash) decodes to `a9 14 h 87`. -/
+theorem roundtrip_p2sh (net : Net) (h : Bytes) (hl : h.length = 20) :
+    decodeBtcAddress net (encodeBase58Check net.p2shId h) = some ([0xa9, 0x14] ++ h ++ [0x87]) := by
+  unfold decodeBtcAddress decodeBtcAddressWith
+  rw [utf8_encodeBase58Check, base58_roundtrip_bytes _ net _ h hl (Or.inr rfl)]
+  simp [(ids_ne net).symm]
+
+/-! ## 3b. Foreign networks, base58check -/
+
+theorem p256_25_lt : (256 : Nat) ^ 25 < 58 ^ 35 := by decide
+
+/-- A base58check address (20-byte hash) whose version byte is neither the P2PKH nor the P2SH id of
+    `net` is rejected — whatever the byte is (byte level). -/
+theorem foreign_base58_rejected_bytes (pk : Bytes → Bool) (net : Net) (v : UInt8) (payload : Bytes)
+    (hl : payload.length = 20) (h1 : v ≠ net.p2pkhId) (h2 : v ≠ net.p2shId) :
+    decodeBytes pk net (encodeBase58CheckBytes v payload) = none := by
+  cases h : decodeBytes pk net (encodeBase58CheckBytes v payload) with
+  | none => rfl
+  | some sc =>
+    exfalso
+    rcases decodeBytes_inv h with ⟨one, ver, prog, a1, a2, a3, a4, a5, a6⟩ | ⟨_, _, _, p, id, b1, _, b3⟩
+    · -- the segwit branch: impossible for a string of this shape
+      have hsb : segwitBranch (encodeBase58CheckBytes v payload) ≠ none := by
+        unfold segwitBranch
+        simp [a1, a2, a3]
+      have hpl : prog.length = 20 ∨ prog.length = 32 := by
+        rcases a6 with ⟨hl, _⟩ | ⟨hl, _⟩ | ⟨hl, _⟩ <;> simp [hl]
+      have hlen := segwit_accepted_length' a1 a4 a5 hpl
+      unfold encodeBase58CheckBytes at hsb hlen
+      by_cases hv0 : v = 0
+      · subst hv0
+        exact hsb (segwitBranch_none_of_head _ _ (base58Encode_zero_head _) (by decide))
+      · obtain ⟨t, n, _, ht1, _, hlo, _, hn⟩ := base58Encode_head v (payload ++ checksum4 (v :: payload)) hv0
+        have hx := beToNat_lt (v :: (payload ++ checksum4 (v :: payload)))
+        have h25 : (v :: (payload ++ checksum4 (v :: payload))).length = 25 := by
+          simp [hl, checksum4_length]
+        rw [h25] at hx
+        have hn35 : n < 35 := by
+          by_cases hge : 35 ≤ n
+          · exfalso
+            have a : 58 ^ 35 ≤ 58 ^ n := Nat.pow_le_pow_right (by decide) hge
+            have b : 1 * 58 ^ n ≤ t * 58 ^ n := Nat.mul_le_mul_right _ ht1
+            have := p256_25_lt
+            omega
+          · omega
+        simp only [List.cons_append] at hlen
+        omega
+    · rw [checkDecode_encode] at b1
+      simp only [Option.some.injEq, Prod.mk.injEq] at b1
+      obtain ⟨_, rfl⟩ := b1
+      rcases b3 with ⟨hid, _⟩ | ⟨hid, _⟩
+      · exact h1 hid
+      · exact h2 hid
+
+/-- **foreign_network_rejected (base58check)**: a P2PKH / P2SH address of another network is rejected
+    unless the two networks use the same version bytes (testnet3, signet and regtest all use 0x6f /
+    0xc4, so their base58 addresses are interchangeable; mainnet's 0x00 / 0x05 are its own). -/
+theorem foreign_network_rejected_base58 (net net' : Net) (h : Bytes) (hl : h.length = 20)
+    (hne : net'.p2pkhId ≠ net.p2pkhId) :
+    decodeBtcAddress net (encodeBase58Check net'.p2pkhId h) = none ∧
+    decodeBtcAddress net (encodeBase58Check net'.p2shId h) = none := by
+  have hall : net'.p2pkhId ≠ net.p2pkhId ∧ net'.p2pkhId ≠ net.p2shId ∧
+      net'.p2shId ≠ net.p2pkhId ∧ net'.p2shId ≠ net.p2shId := by
+    revert hne; cases net <;> cases net' <;> decide
+  unfold decodeBtcAddress decodeBtcAddressWith
+  rw [utf8_encodeBase58Check, utf8_encodeBase58Check]
+  exact ⟨foreign_base58_rejected_bytes _ net _ h hl hall.1 hall.2.1,
+    foreign_base58_rejected_bytes _ net _ h hl hall.2.2.1 hall.2.2.2⟩
+
+/-! ## Converse direction: an accepted string IS the canonical encoding (used for injectivity) -/
+
+theorem xor_cancel_left {a b c : Nat} (h : a ^^^ b = c) : b = a ^^^ c := by
+  rw [← h, ← Nat.xor_assoc, Nat.xor_self, Nat.zero_xor]
+
+/-- the six checksum symbols are determined by the rest of the string -/
+theorem checksum_unique (hrp : Bytes) (data cs : List Nat) (ver : B32Version) (hl : cs.length = 6)
+    (hlt : ∀ v ∈ cs, v < 32) (h : polymod hrp (data ++ cs) = ver.const) :
+    cs = bech32Checksum hrp data ver := by
+  match cs, hl with
+  | [c0, c1, c2, c3, c4, c5], _ =>
+    have key : ∀ l, polymod hrp (data ++ l) =
+        List.foldl polyStep (List.foldl polyStep 1 (hrpExpand hrp ++ data)) l := by
+      intro l
+      unfold polymod
+      rw [← List.append_assoc, List.foldl_append]
+    unfold bech32Checksum
+    simp only [key] at h ⊢
+    generalize List.foldl polyStep 1 (hrpExpand hrp ++ data) = S at h ⊢
+    generalize hZ : List.foldl polyStep S [0, 0, 0, 0, 0, 0] = Z
+    have hZlt : Z < 2 ^ 30 := by
+      rw [← hZ]
+      simp only [List.foldl]
+      exact polyStep_lt _ _ (by decide)
+    have hc : ver.const < 2 ^ 30 := by cases ver <;> decide
+    have hpm : Z ^^^ ver.const < 2 ^ 30 := Nat.xor_lt_two_pow hZlt hc
+    rw [fold6_linear, hZ, fold6_zero] at h
+    · have h' := xor_cancel_left h
+      generalize Z ^^^ ver.const = pm at hpm h'
+      have h31 : ∀ n : Nat, n &&& 31 = n % 32 := fun n => by
+        rw [show (31 : Nat) = 2 ^ 5 - 1 by decide, Nat.and_two_pow_sub_one_eq_mod]
+      simp only [h31, Nat.shiftRight_eq_div_pow]
+      have b0 := hlt c0 (by simp)
+      have b1 := hlt c1 (by simp)
+      have b2 := hlt c2 (by simp)
+      have b3 := hlt c3 (by simp)
+      have b4 := hlt c4 (by simp)
+      have b5 := hlt c5 (by simp)
+      have e0 : c0 = pm / 2 ^ 25 % 32 := by omega
+      have e1 : c1 = pm / 2 ^ 20 % 32 := by omega
+      have e2 : c2 = pm / 2 ^ 15 % 32 := by omega
+      have e3 : c3 = pm / 2 ^ 10 % 32 := by omega
+      have e4 : c4 = pm / 2 ^ 5 % 32 := by omega
+      have e5 : c5 = pm / 2 ^ 0 % 32 := by omega
+      rw [← e0, ← e1, ← e2, ← e3, ← e4, ← e5]
+    all_goals exact hlt _ (by simp)
+
+theorem bits8_val8 (a b c d e f g h : Bool) :
+    bits8 (UInt8.ofNat (val8 a b c d e f g h)) = [a, b, c, d, e, f, g, h] := by
+  cases a <;> cases b <;> cases c <;> cases d <;> cases e <;> cases f <;> cases g <;> cases h <;> decide
+
+theorem regroup8_spec (bs : List Bool) :
+    bs = (regroup8 bs).1.flatMap bits8 ++ (regroup8 bs).2 := by
+  fun_induction regroup8 bs with
+  | case1 a b c d e f g h rest r ih =>
+    have hr : r = regroup8 rest := rfl
+    simp only [List.flatMap_cons, bits8_val8, hr, List.cons_append, List.nil_append]
+    rw [← ih]
+  | case2 rest hne => simp
+
+theorem val5_bits5 : ∀ v, v < 32 → val5 (v.testBit 4) (v.testBit 3) (v.testBit 2) (v.testBit 1) (v.testBit 0) = v := by
+  decide +kernel
+
+theorem regroup5_flatMap_bits5 (l : List Nat) (h : ∀ v ∈ l, v < 32) : regroup5 (l.flatMap bits5) = l := by
+  induction l with
+  | nil => rfl
+  | cons v tl ih =>
+    simp only [List.flatMap_cons, bits5, List.cons_append, List.nil_append, regroup5,
+      val5_bits5 v (h v (by simp)), ih (fun w hw => h w (by simp [hw]))]
+
+/-- padding zero bits that only complete the last group do not change the 5-bit regrouping -/
+theorem regroup5_pad (bs : List Bool) (k : Nat) (hk : k < 5) (hm : (bs.length + k) % 5 = 0) :
+    regroup5 (bs ++ List.replicate k false) = regroup5 bs := by
+  fun_induction regroup5 bs with
+  | case1 a b c d e rest ih =>
+    simp only [List.cons_append, regroup5]
+    rw [ih (by simp only [List.length_cons] at hm; omega)]
+  | case2 a b c d =>
+    have : k = 1 := by simp only [List.length_cons, List.length_nil] at hm; omega
+    subst this; rfl
+  | case3 a b c =>
+    have : k = 2 := by simp only [List.length_cons, List.length_nil] at hm; omega
+    subst this; rfl
+  | case4 a b =>
+    have : k = 3 := by simp only [List.length_cons, List.length_nil] at hm; omega
+    subst this; rfl
+  | case5 a =>
+    have : k = 4 := by simp only [List.length_cons, List.length_nil] at hm; omega
+    subst this; rfl
+  | case6 =>
+    have : k = 0 := by simp only [List.length_nil] at hm; omega
+    subst this; rfl
+
+theorem all_false_eq_replicate (t : List Bool) (h : t.any id = false) : t = List.replicate t.length false := by
+  induction t with
+  | nil => rfl
+  | cons b tl ih =>
+    simp only [List.any_cons, id, Bool.or_eq_false_iff] at h
+    rw [List.length_cons, List.replicate_succ, ← ih h.2, h.1]
+
+/-- ConvertBits(·, 8, 5, true) ∘ ConvertBits(·, 5, 8, false) = id where the latter succeeds -/
+theorem convert8to5_convert5to8 {rest : List Nat} {prog : Bytes} (hlt : ∀ v ∈ rest, v < 32)
+    (h : convert5to8 rest = some prog) : convert8to5 prog = rest := by
+  simp only [convert5to8] at h
+  split at h
+  · cases h
+  · rename_i hc
+    cases h
+    have hspec := regroup8_spec (rest.flatMap bits5)
+    generalize regroup8 (rest.flatMap bits5) = r at hc hspec
+    obtain ⟨p, t⟩ := r
+    simp only at hc hspec ⊢
+    have ht1 : ¬ t.length > 4 := fun hh => hc (Or.inl hh)
+    have ht2 : t.any id = false := by
+      cases hh : t.any id
+      · rfl
+      · exact absurd (Or.inr hh) hc
+    have ht := all_false_eq_replicate t ht2
+    have hlen := congrArg List.length hspec
+    rw [flatMap_bits5_length, List.length_append] at hlen
+    unfold convert8to5
+    rw [← regroup5_pad (p.flatMap bits8) t.length (by omega) (by omega), ← ht, ← hspec]
+    exact regroup5_flatMap_bits5 rest hlt
+
+theorem charsetIdx_inv : ∀ c : UInt8, ∀ v, charsetIdx c = some v → v < 32 ∧ charsetAt v = c := by
+  apply forall_uint8
+  decide +kernel
+
+theorem toValues_inv : ∀ (l : Bytes) (vs : List Nat), toValues l = some vs →
+    l = vs.map charsetAt ∧ ∀ v ∈ vs, v < 32 := by
+  intro l
+  induction l with
+  | nil => intro vs h; simp [toValues] at h; subst h; simp
+  | cons c tl ih =>
+    intro vs h
+    unfold toValues at h
+    split at h
+    · rename_i v vs' hv hvs
+      cases h
+      obtain ⟨i1, i2⟩ := ih vs' hvs
+      obtain ⟨c1, c2⟩ := charsetIdx_inv c v hv
+      refine ⟨by simp [c2, ← i1], ?_⟩
+      intro w hw
+      simp only [List.mem_cons] at hw
+      rcases hw with rfl | hw
+      · exact c1
+      · exact i2 w hw
+    · cases h
+
+theorem lowerBytes_take (bs : Bytes) (n : Nat) : lowerBytes (bs.take n) = (lowerBytes bs).take n := by
+  simp [lowerBytes, List.map_take]
+
+theorem asciiLower_not_upper : ∀ a : UInt8, isUpperB (asciiLower a) = false := by
+  apply forall_uint8
+  decide +kernel
+
+/-- split a list at an index holding a known element -/
+theorem split_at_idx (l : Bytes) (i : Nat) (c : UInt8) (h : l[i]? = some c) :
+    l = l.take i ++ c :: l.drop (i + 1) := by
+  induction l generalizing i with
+  | nil => simp at h
+  | cons x tl ih =>
+    cases i with
+    | zero => simp at h; simp [h]
+    | succ i =>
+      simp only [List.getElem?_cons_succ] at h
+      simp only [List.take_succ_cons, List.drop_succ_cons, List.cons_append]
+      rw [← ih i h]
+
+/-- **An accepted segwit string is, up to case, the canonical encoding** of its witness version and
+    program for the human-readable part it carries. -/
+theorem segwit_accepted_canonical {addr : Bytes} {one ver : Nat} {prog : Bytes}
+    (hone : lastIdx 0x31 addr = some one) (hds : decodeSegWit addr = some (ver, prog))
+    (hver : ver = 0 ∨ ver = 1) :
+    lowerBytes addr = encodeSegwitBytes (lowerBytes (addr.take one)) ver prog := by
+  obtain ⟨hrp, rest, bver, hb, _, hc, _, _, hv0, hv1⟩ := decodeSegWit_inv hds
+  obtain ⟨_, _, _, one', decoded, h1, h2, h3, h4, h5, h6, h7⟩ := bech32Decode_inv hb
+  rw [hone] at h1
+  cases h1
+  -- the lower-cased string splits at the separator
+  have hlow1 : lastIdx 0x31 (lowerBytes addr) = some one := by rw [lastIdx_lower]; exact hone
+  have hsplit := split_at_idx _ one 0x31 (lastIdx_some _ _ hlow1).2.1
+  -- the data part
+  obtain ⟨hd1, hd2⟩ := toValues_inv _ _ h5
+  have hdl := toValues_length _ _ h5
+  have hlen : (lowerBytes addr).length = addr.length := by simp [lowerBytes]
+  rw [List.length_drop, hlen] at hdl
+  have hdec : decoded = (ver :: rest) ++ decoded.drop (decoded.length - 6) := by
+    rw [h7]; exact (List.take_append_drop _ _).symm
+  generalize hcs : decoded.drop (decoded.length - 6) = cs at hdec
+  have hcsl : cs.length = 6 := by rw [← hcs, List.length_drop]; omega
+  have hcslt : ∀ v ∈ cs, v < 32 := by
+    intro v hv
+    apply hd2
+    rw [hdec]
+    exact List.mem_append_right _ hv
+  have hrestlt : ∀ v ∈ rest, v < 32 := by
+    intro v hv
+    apply hd2
+    rw [hdec]
+    exact List.mem_append_left _ (List.mem_cons_of_mem _ hv)
+  rw [hdec] at h6
+  have hck := checksum_unique hrp (ver :: rest) cs bver hcsl hcslt h6
+  have hconv := convert8to5_convert5to8 hrestlt hc
+  have hbver : bver = (if ver = 0 then B32Version.v0 else B32Version.vM) := by
+    rcases hver with rfl | rfl
+    · simpa using (hv0 rfl).2
+    · simpa using hv1 rfl
+  have hhrp : hrp = lowerBytes (addr.take one) := by rw [h4, lowerBytes_take]
+  have hll : lowerBytes (lowerBytes (addr.take one)) = lowerBytes (addr.take one) := by
+    apply lowerBytes_of_no_upper
+    intro b hb
+    simp only [lowerBytes, List.mem_map] at hb
+    obtain ⟨a, _, rfl⟩ := hb
+    exact asciiLower_not_upper a
+  unfold encodeSegwitBytes bech32Encode
+  simp only [hll]
+  rw [hconv, ← hbver, ← hhrp, ← hck, ← hdec, ← hd1, h4]
+  rw [List.append_assoc]
+  exact hsplit
+
+theorem b58Idx_inv : ∀ c : UInt8, ∀ d, b58Idx c = some d → d < 58 ∧ alphabetAt d = c := by
+  apply forall_uint8
+  decide +kernel
+
+theorem b58Digits_inv : ∀ (l : Bytes) (ds : List Nat), b58Digits l = some ds →
+    l = ds.map alphabetAt ∧ ∀ d ∈ ds, d < 58 := by
+  intro l
+  induction l with
+  | nil => intro ds h; simp [b58Digits] at h; subst h; simp
+  | cons c tl ih =>
+    intro ds h
+    unfold b58Digits at h
+    split at h
+    · rename_i v vs' hv hvs
+      cases h
+      obtain ⟨i1, i2⟩ := ih vs' hvs
+      obtain ⟨c1, c2⟩ := b58Idx_inv c v hv
+      refine ⟨by simp [c2, ← i1], ?_⟩
+      intro w hw
+      simp only [List.mem_cons] at hw
+      rcases hw with rfl | hw
+      · exact c1
+      · exact i2 w hw
+    · cases h
+
+theorem split_zeros (ds : List Nat) : ∃ k ds', ds = List.replicate k 0 ++ ds' ∧ ds'.head? ≠ some 0 := by
+  induction ds with
+  | nil => exact ⟨0, [], rfl, by simp⟩
+  | cons d tl ih =>
+    by_cases hd : d = 0
+    · obtain ⟨k, ds', h1, h2⟩ := ih
+      exact ⟨k + 1, ds', by rw [hd, h1, List.replicate_succ]; rfl, h2⟩
+    · exact ⟨0, d :: tl, rfl, by simp [hd]⟩
+
+theorem ofNat_toNat_lt {d : Nat} (h : d < 256) : (UInt8.ofNat d).toNat = d := by
+  simp [Nat.mod_eq_of_lt h]
+
+/-- **base58.Encode ∘ base58.Decode = id** on strings over the alphabet. -/
+theorem base58Encode_decode (s : Bytes) (ds : List Nat) (h : b58Digits s = some ds) :
+    base58Encode (base58Decode s) = s := by
+  obtain ⟨hs, hlt⟩ := b58Digits_inv s ds h
+  obtain ⟨k, ds', hsplit, hhead⟩ := split_zeros ds
+  have hlt' : ∀ d ∈ ds', d < 58 := fun d hd => hlt d (by rw [hsplit]; exact List.mem_append_right _ hd)
+  have hs' : s = List.replicate k 0x31 ++ ds'.map alphabetAt := by
+    rw [hs, hsplit, List.map_append, List.map_replicate]; rfl
+  have hk : countLeading 0x31 s = k := by
+    rw [hs']
+    apply countLeading_replicate
+    cases ds' with
+    | nil => simp
+    | cons t ts =>
+      simp only [List.head?_cons, ne_eq, Option.some.injEq] at hhead
+      simp only [List.map_cons, List.head?_cons, ne_eq, Option.some.injEq]
+      intro hc
+      exact hhead ((alphabetAt_props t (hlt' t (by simp))).2.1.mp hc)
+  -- the number and its two digit lists
+  have hx : ofDigits 58 ds = ofDigitsLE 58 ds'.reverse := by
+    rw [hsplit, ofDigits_zeros, ofDigits_eq]
+  generalize hxx : ofDigits 58 ds = x at hx
+  have hE1 := digitsLE_lt 256 (by decide) x x
+  have hE2 := digitsLE_getLast 256 (by decide) x x (Nat.le_refl _)
+  have hE3 := ofDigitsLE_digitsLE 256 (by decide) x x (Nat.le_refl _)
+  generalize hE : digitsLE 256 x x = E at hE1 hE2 hE3
+  have hB : natBytesBE x = (E.map UInt8.ofNat).reverse := by
+    unfold natBytesBE; rw [natBytesLE_eq, hE]
+  have hBhead : ((E.map UInt8.ofNat).reverse).head? ≠ some 0 := by
+    rw [List.head?_reverse, List.getLast?_map]
+    cases hl : E.getLast? with
+    | none => simp
+    | some t =>
+      simp only [Option.map_some, ne_eq, Option.some.injEq]
+      intro h0
+      have htm : t ∈ E := List.mem_of_getLast? hl
+      have : (UInt8.ofNat t).toNat = t := ofNat_toNat_lt (hE1 t htm)
+      rw [h0] at this
+      apply hE2
+      rw [hl, ← this]
+      rfl
+  have hBval : beToNat ((E.map UInt8.ofNat).reverse) = x := by
+    rw [beToNat_eq, ofDigits_eq, ← List.map_reverse, List.reverse_reverse, List.map_map,
+      List.map_congr_left (g := id), List.map_id, hE3]
+    intro d hd
+    exact ofNat_toNat_lt (hE1 d hd)
+  have hD : digitsLE 58 x x = ds'.reverse := by
+    rw [hx]
+    apply digitsLE_ofDigitsLE 58 (by decide)
+    · intro d hd; exact hlt' d (List.mem_reverse.mp hd)
+    · rw [List.getLast?_reverse]; exact hhead
+    · exact Nat.le_refl _
+  unfold base58Decode
+  simp only [h, hxx, hk, hB]
+  unfold base58Encode
+  rw [countLeading_replicate 0 k _ hBhead, beToNat_zeros, hBval]
+  simp only [digits58LE_eq, hD, List.reverse_reverse]
+  exact hs'.symm
+
+/-- **A string accepted by base58.CheckDecode is exactly the CheckEncode of what it decodes to.** -/
+theorem checkDecode_canonical {addr payload : Bytes} {id : UInt8}
+    (h : checkDecode addr = some (payload, id)) : addr = encodeBase58CheckBytes id payload := by
+  unfold checkDecode at h
+  cases hd : b58Digits addr with
+  | none =>
+    have : base58Decode addr = [] := by unfold base58Decode; rw [hd]
+    simp [this] at h
+  | some ds =>
+    have hrt := base58Encode_decode addr ds hd
+    generalize base58Decode addr = decoded at h hrt
+    simp only at h
+    split at h
+    · cases h
+    · rename_i hlen
+      split at h
+      · cases h
+      · rename_i version tl
+        split at h
+        · rename_i hck
+          simp only [Option.some.injEq, Prod.mk.injEq] at h
+          obtain ⟨hp, rfl⟩ := h
+          simp only [List.length_cons] at hlen hck hp
+          have e1 : tl.length + 1 - 4 = (tl.length - 4) + 1 := by omega
+          rw [e1, List.take_succ_cons] at hck hp
+          simp only [List.drop_succ_cons, List.drop_zero] at hp
+          rw [hp] at hck
+          simp only [encodeBase58CheckBytes]
+          rw [hck, ← hp]
+          rw [show version :: List.take (tl.length - 4) tl ++ List.drop (tl.length - 4 + 1) (version :: tl)
+              = version :: tl by simp]
+          exact hrt.symm
+        · cases h
+
 end Goat.C17A
